@@ -45,25 +45,26 @@ func (pattern glob) Match(str string) bool {
 	var starIdx, matchIdx int = -1, -1
 
 	for j < len(str) {
-		if i < len(pattern) && (pattern[i] == str[j] || pattern[i] == '\\' && i+1 < len(pattern) && pattern[i+1] == str[j]) {
-			// characters match or if there's an escaped character that matches
-			if pattern[i] == '\\' {
-				// skip the escape character
-				i++
-			}
-			i++
-			j++
-		} else if i < len(pattern) && pattern[i] == '*' {
-			// there's a * wildcard in the pattern
+		switch {
+		case i < len(pattern) && pattern[i] == '*':
+			// there's a * wildcard in the pattern (an unescaped '*' is never a literal)
 			starIdx = i
 			matchIdx = j
 			i++
-		} else if starIdx != -1 {
+		case i < len(pattern) && pattern[i] == '\\' && i+1 < len(pattern) && pattern[i+1] == str[j]:
+			// escaped character, matching literally: skip the escape character too
+			i += 2
+			j++
+		case i < len(pattern) && pattern[i] != '\\' && pattern[i] == str[j]:
+			// characters match
+			i++
+			j++
+		case starIdx != -1:
 			// there's a previous * wildcard, backtrack
 			i = starIdx + 1
 			matchIdx++
 			j = matchIdx
-		} else {
+		default:
 			// no match found
 			return false
 		}
